@@ -14,6 +14,7 @@ Values: `str{s}`, `strs{xs}`, `tuple{xs}`, `pkg{fields:[[name,V]…], ver:null|{
   count, cached, cachedIsFinal}`: which calls succeed (false = TypeError) and the state of the node afterwards
 * `c07.match {r, vals:[V…]}` → list of booleans, or `"opaque"` when `r` contains a primitive the driver cannot
   evaluate (regular expression, user function, identity object, atom, flattening, DepSet, `str()` of a non-string).
+* `c07.matchmany {rs:[R…], vals:[V…]}` → the `c07.match` answer of every `r` over the same values (one universe per request).
 -/
 namespace Pkgcore.Driver.C07
 open Lean Pkgcore.Proto Pkgcore.C07 Pkgcore.C07.Spec
@@ -151,5 +152,10 @@ def handle : Handler := fun cmd j =>
     let r ← (j.getObjVal? "r").toOption >>= parseR
     let vals ← (← getArr j "vals").mapM parseV
     if concrete r then pure (toJson (vals.map fun x => mtch env r x)) else pure (Json.str "opaque")
+  | "c07.matchmany" => do
+    let rs ← (← getArr j "rs").mapM parseR
+    let vals ← (← getArr j "vals").mapM parseV
+    pure (Json.arr (rs.map fun r =>
+      if concrete r then toJson (vals.map fun x => mtch env r x) else Json.str "opaque").toArray)
   | _ => none
 end Pkgcore.Driver.C07
